@@ -629,6 +629,7 @@ func init() {
 				{Name: "coercer-own-schema", MaxDevs: -1, Run: c17CoercerKindsScenario},
 				{Name: "value-copies-of-schemas", MaxDevs: -1, Run: c17ValueCopyScenario},
 				{Name: "options-from-a-shared-list", MaxDevs: -1, Run: c17OptionSliceScenario},
+				{Name: "pointer-schema-object-at-several-destination-types", MaxDevs: -1, Run: c17SharedPtrScenario},
 			}
 			for i, c := range c17StringCalls() {
 				items = append(items, Item{Name: "string-chains/first=" + c.name, MaxDevs: -1, Run: c17StringScenario(c17Len(tier), i)})
